@@ -114,6 +114,19 @@ class Ctx:
             if a.size <= 4_000_000:
                 self._retained.append([a, self._digest(a), label, 0])
 
+    def scribble(self, arr, *owners):
+        """The caller does what it likes with a result it was handed: overwrite it (NaN / -7) -- unless it is (a view of) one of
+        the caller's own tracked operands, or of an array parameter of the operator(s) it came from (a Dense operator hands out
+        the very matrix it wraps: documented aliasing, not a private result).  -> True when the array was overwritten."""
+        if not isinstance(arr, np.ndarray) or arr.size == 0 or not arr.flags.writeable:
+            return False
+        if any(np.may_share_memory(arr, g[0]) for g in self._guards) or any(np.may_share_memory(arr, r[0]) for r in self._retained):
+            return False
+        if any(np.may_share_memory(arr, leaf) for leaf in self._arrays_of(owners)):
+            return False
+        arr[...] = np.nan if arr.dtype.kind in "fc" else -7
+        return True
+
     def verify_guards(self, site="-", age=False):
         for g in self._guards:
             a, dg, label, _ = g
